@@ -226,12 +226,18 @@ func (r *c25Run) readAll(st c25Step, where string) {
 		if !c.written || r.lost[id] {
 			continue
 		}
-		got, err := r.cdm.Chunk(c.ref)
-		ok := err == nil && got != nil && got.Encoding() == c.enc && bytes.Equal(got.Bytes(), c.data)
 		pred := "na"
 		if id-1 < len(st.Rd) {
 			pred = st.Rd[id-1]
 		}
+		if st.KF && pred != "ok" && c.werr == nil {
+			// KF-C25-1 has struck and this chunk was misplaced: its reference points into unwritten space of a file
+			// that is m-mapped larger than it is; Chunk(ref) can die with SIGBUS there, so it is not called.
+			r.fail("violation", "kf1-cut-sequence-mismatch", fmt.Sprintf("%s: chunk %d (ref %d) was written after the cut-sequence mismatch and is misplaced (transcription: %s)", where, id, c.ref, pred))
+			continue
+		}
+		got, err := r.cdm.Chunk(c.ref)
+		ok := err == nil && got != nil && got.Encoding() == c.enc && bytes.Equal(got.Bytes(), c.data)
 		switch {
 		case ok && pred == "ok":
 		case ok:
@@ -480,7 +486,7 @@ func (r *c25Run) replay(b c25Beh) {
 			r.cdm = nil
 			r.gate = c25NewGate()
 			c25Gates.Store(r.run, r.gate)
-			if r.sweep {
+			if r.sweep && !st.KF {
 				r.tornSweep(st.Torn, where)
 			}
 			if err := r.open(); err != nil {
